@@ -74,12 +74,22 @@ Definition family_outcome (f : nfam) (n : Z) : outcome :=
   else if (0 <? cap_level f) && (MAXRECLEVEL + 2 <=? cap_depth f n) then TooDeep else Parsed.
 
 (* ------------------------------------------------------------------ *)
-(* work of parsing n nested call statements  f(function() f(function() ... end) end):
-   CALL_PREFIX_PARSES alternatives of Block parse the complete call prefix, arguments included,
-   before the statement kind is decided (2 in `Assign / call`: var = exprprim (callsuffix+ indexsuffix)+
-   consumes the call and then fails for want of an index) *)
-Fixpoint parse_work (n : nat) : Z :=
-  match n with O => 1 | S n' => 1 + CALL_PREFIX_PARSES * parse_work n' end.
+(* work of parsing n nested levels of a construct when k alternatives / lookaheads parse the complete
+   nested part at every level:  work(n) = 1 + k * work(n-1).  Three places of the grammar:
+   - a call statement  f(function() f(function() ... end) end): CALL_PREFIX_PARSES
+     (2 with `Assign / call`: var = exprprim (callsuffix+ indexsuffix)+ consumes the call, fails for want of
+     an index, then call parses it again; 1 with the repaired `call !(`.` / `[`) / Assign / call`);
+   - an assignment to a field of a call result  f(function() ... end).x = 1: ASSIGN_CALLIDX_PARSES
+     (1 with `Assign / call`, 2 with the repaired order: the call alternative parses everything, its
+     lookahead fails, Assign parses again);
+   - a macro call  m!(m!(...)): MACRO_PREFIX_PARSES (2 with ppcallprim's `&callsuffix` lookahead). *)
+Fixpoint work (k : Z) (n : nat) : Z :=
+  match n with O => 1 | S n' => 1 + k * work k n' end.
+Definition parse_work_call := work CALL_PREFIX_PARSES.
+Definition parse_work_assign_callidx := work ASSIGN_CALLIDX_PARSES.
+Definition parse_work_macro := work MACRO_PREFIX_PARSES.
+(* the property "the compiler terminates" read as: parse work linear in the nesting depth *)
+Definition work_linear (w : nat -> Z) : Prop := forall n, w n <= 2 * Z.of_nat n + 1.
 
 (* ------------------------------------------------------------------ *)
 (* errorer.get_pretty_source_pos_errmsg without colours (stderr is not a terminal) *)
